@@ -17,6 +17,7 @@ limitations under the License.
 #pragma once
 #include <photon/common/callback.h>
 #include <photon/common/timeout.h>
+#include <photon/common/verif-hooks.h>
 #include <photon/thread/stack-allocator.h>
 
 #include <atomic>
@@ -516,6 +517,7 @@ namespace photon
             SCOPED_LOCK(splock);
             auto cnt = m_count.fetch_add(count) + count;
             try_resume(cnt);
+            VERIF_POINT(P_SEM_SIGNAL_AFTER_RESUME);
             return 0;
         }
 
@@ -643,6 +645,7 @@ namespace photon
             SCOPED_LOCK(spin);
             while (true) {
                 if (try_fn()) return 0;
+                VERIF_COV(C_QRW_SLOWPATH);
                 int ret = cv.wait(spin, timeout);
                 if (ret < 0) {
                     return -1;
@@ -660,6 +663,7 @@ namespace photon
         void __unlock_shared() {
             auto prev = lock_state.fetch_sub(1, std::memory_order_acq_rel);
             assert(prev > 0);  // prev<=0 indicates misuse
+            VERIF_POINT(P_QRW_UNLOCK_SHARED);
             if (prev == 1) {
                 SCOPED_LOCK(spin);
                 try_wake();
